@@ -69,7 +69,7 @@ SumSeq(s, k) == IF k > Len(s) THEN 0 ELSE s[k] + SumSeq(s, k + 1)
 StrCode(s) == CASE s = "" -> 0 [] s = "std" -> 1 [] s = "optional" -> 2 [] s = "exact" -> 3 [] s = "params" -> 4
     [] s = "other" -> 5 [] s = "wildcard" -> 6 [] s = "garbage" -> 7 [] s = "absent" -> 8 [] s = "empty" -> 9 [] s = "near" -> 23
     [] s = "doc" -> 10 [] s = "docws" -> 11 [] s = "trailing" -> 12 [] s = "truncated" -> 13 [] s = "malformed" -> 14
-    [] s = "unknown" -> 15 [] s = "wrongtype" -> 16 [] s = "json" -> 17 [] s = "jsonparams" -> 18 [] s = "octet" -> 19
+    [] s = "unknown" -> 15 [] s = "wrongtype" -> 16 [] s = "otherenc" -> 25 [] s = "json" -> 17 [] s = "jsonparams" -> 18 [] s = "octet" -> 19
     [] s = "unit" -> 20 [] s = "value" -> 21 [] s = "default" -> 22 [] s = "binary" -> 23 [] OTHER -> 24
 Hash == SumSeq([i \in 1..Len(h) |-> (i * 37 + 11) * (h[i] + 2)], 1) + StrCode(par.kind) * 3 + StrCode(par.ct) * 7
         + (par.limit + 2) * 13 + StrCode(par.cls) * 17 + StrCode(par.ret) * 19 + par.status
